@@ -116,6 +116,23 @@ def _simp(t):
     return r
 
 
+_RND = {}
+
+
+def _round_R(mag, neg, p, n, rm, K):
+    """round_detail(...)['R'], memoised on the identity of the (hash-consed) magnitude term: paths re-executed by the engine and
+    programs run side by side build the same operand terms again and again; the term built for them is the same"""
+    k = (mag.get_id(), neg, p, n, rm, K)
+    hit = _RND.get(k)
+    if hit is not None and hit[0].eq(mag):
+        return hit[1]
+    r = round_detail(mag, neg, p, n, rm, K)['R']
+    if len(_RND) > 50000:
+        _RND.clear()
+    _RND[k] = (mag, r)
+    return r
+
+
 def _mk_float(sign_term, exp, mag_term, ctx, ub=None):
     """build a Float without running __init__ (no forks): sign as SymInt 0/1, significand as SymInt
     (`ub`: static bound on the significand's bit length, used to discharge overflow obligations without the solver)"""
@@ -160,10 +177,10 @@ def _finish(m, exp, ctx, zero_neg, ub=None):
             R = mag
         # directed modes depend on the sign: build both and select
         elif rm in ('RTP', 'RTN'):
-            Rp = round_detail(mag, False, p, n_eff, rm, K)['R']; Rn = round_detail(mag, True, p, n_eff, rm, K)['R']
+            Rp = _round_R(mag, False, p, n_eff, rm, K); Rn = _round_R(mag, True, p, n_eff, rm, K)
             R = z3.If(neg, Rn, Rp)
         else:
-            R = round_detail(mag, False, p, n_eff, rm, K)['R']
+            R = _round_R(mag, False, p, n_eff, rm, K)
         rneg = z3.If(m == 0, zero_neg, neg)
         if not has_nz:
             rneg = z3.And(rneg, R != 0)
